@@ -176,6 +176,9 @@ def emit(workdir, specs, out="extracted.c", types=True, prelude_after=None):
             rules._count("POST:" + pat[:40], n)
             if n == 0:
                 raise ExtractionError("post rule did not fire in %s: %s" % (fn.name, pat))
+        for pat, rep in sp.get("post_opt", ()):   # the same, for calls whose ABSENCE is a behaviour change to be judged by the contract, not an extraction break
+            text, n = re.subn(pat, rep, text)
+            rules._count("POST?:" + pat[:40], n)
         for r in list(macros) + list(sp.get("ref_params", ()) if sp.get("params_override") else []):
             text = re.sub(r"(?<![\w\.>])%s\b" % re.escape(r), "(*%s__p)" % r, text)
         macros = ""
